@@ -578,3 +578,199 @@ Lemma seq_roundtrip (WF : table_wellformed = true) ks :
   Forall (fun e => seq_representable e = true) ks ->
   parse_seq (repr_seq ks) = (true, ks).
 Proof. intro H. unfold parse_seq. now rewrite (parse_seq_from_roundtrip WF ks []). Qed.
+
+(** * 6. Parser soundness: what a successful Parse() says about the text *)
+
+(** the tokens of a key event text: the ones terminated by '+', and the last *)
+Fixpoint split_plus (s : bytes) (cur_rev : bytes) : list bytes * bytes :=
+  match s with
+  | [] => ([], rev cur_rev)
+  | c :: r =>
+      if Byte.eqb c ch_plus
+      then let (ts, l) := split_plus r [] in (rev cur_rev :: ts, l)
+      else split_plus r (c :: cur_rev)
+  end.
+
+Definition mask_of (ts : list bytes) (m0 : Z) : Z :=
+  fold_left (fun a t => Z.lor a (RimeGetModifierByName t)) ts m0.
+
+(** Parse() succeeds exactly when every '+'-terminated token is accepted by
+    RimeGetModifierByName and the last one by RimeGetKeycodeByName *)
+Lemma parse_from_spec s : forall acc m0 k m,
+  parse_from s acc m0 = (true, k, m) <->
+  (let (ts, l) := split_plus s acc in
+   Forall (fun t => RimeGetModifierByName t <> 0) ts /\ m = mask_of ts m0 /\
+   RimeGetKeycodeByName l = k /\ k <> XK_VoidSymbol).
+Proof.
+  induction s as [|c r IH]; intros acc m0 k m; cbn [parse_from split_plus].
+  - cbn zeta. destruct (RimeGetKeycodeByName (rev acc) =? XK_VoidSymbol) eqn:E.
+    + apply Z.eqb_eq in E. split; [discriminate|]. intros (_ & _ & H1 & H2). congruence.
+    + apply Z.eqb_neq in E. split.
+      * intro H. inversion H; subst. repeat split; [constructor|assumption].
+      * intros (_ & Hm & H1 & _). cbn in Hm. now subst.
+  - destruct (Byte.eqb c ch_plus).
+    + destruct (split_plus r []) as [ts l] eqn:Es.
+      destruct (RimeGetModifierByName (rev acc) =? 0) eqn:E.
+      * apply Z.eqb_eq in E. split; [discriminate|]. intros (HF & _). inversion HF; subst. contradiction.
+      * apply Z.eqb_neq in E. rewrite IH, Es. cbn [mask_of fold_left].
+        split.
+        -- intros (HF & Hm & H1 & H2). repeat split; try assumption. now constructor.
+        -- intros (HF & Hm & H1 & H2). inversion HF; subst. repeat split; assumption.
+    + apply IH.
+Qed.
+
+(** the text before '+' is the name of slot i *)
+Definition is_modifier_text (t : bytes) (bit : Z) : Prop :=
+  exists i n, nth_error modifier_name i = Some (Some n) /\ cstr t = cstr n /\ bit = Z.shiftl 1 (Z.of_nat i).
+
+Lemma modifier_by_name_loop_sound names : forall i name b,
+  modifier_by_name_loop names i name = b -> b <> 0 ->
+  exists j n, nth_error names j = Some (Some n) /\ name = cstr n /\ b = Z.shiftl 1 (Z.of_nat (i + j)).
+Proof.
+  induction names as [|nm names IH]; intros i name b H Hb; cbn [modifier_by_name_loop] in H; [congruence|].
+  destruct nm as [n|].
+  - destruct (bytes_eqb name (cstr n)) eqn:E.
+    + apply bytes_eqb_eq in E. exists 0%nat, n. rewrite Nat.add_0_r. repeat split; [assumption|congruence].
+    + destruct (IH (S i) name b H Hb) as (j & n' & H1 & H2 & H3). exists (S j), n'.
+      repeat split; try assumption. now rewrite Nat.add_succ_r.
+  - destruct (IH (S i) name b H Hb) as (j & n' & H1 & H2 & H3). exists (S j), n'.
+    repeat split; try assumption. now rewrite Nat.add_succ_r.
+Qed.
+
+Lemma modifier_by_name_sound t : RimeGetModifierByName t <> 0 -> is_modifier_text t (RimeGetModifierByName t).
+Proof.
+  intro H. destruct (modifier_by_name_loop_sound modifier_name 0 (cstr t) _ eq_refl H) as (j & n & H1 & H2 & H3).
+  exists j, n. repeat split; assumption.
+Qed.
+
+(** a text no slot carries is rejected *)
+Lemma modifier_by_name_loop_unknown names : forall i name,
+  (forall j n, nth_error names j = Some (Some n) -> name <> cstr n) ->
+  modifier_by_name_loop names i name = 0.
+Proof.
+  induction names as [|nm names IH]; intros i name H; cbn [modifier_by_name_loop]; [reflexivity|].
+  assert (Hrest : forall j n, nth_error names j = Some (Some n) -> name <> cstr n)
+    by (intros j n Hj; exact (H (S j) n Hj)).
+  destruct nm as [n|]; [|now apply IH].
+  destruct (bytes_eqb name (cstr n)) eqn:E; [|now apply IH].
+  apply bytes_eqb_eq in E. exfalso. exact (H 0%nat n eq_refl E).
+Qed.
+
+(** the last token names key [k] in keys_by_keyval *)
+Definition is_key_text (t : bytes) (k : Z) : Prop :=
+  exists off, In (k, off) keys_by_keyval /\ cstr_at key_names off = cstr t /\ k <> XK_VoidSymbol.
+
+Lemma keycode_by_name_sound t k :
+  RimeGetKeycodeByName t = k -> k <> XK_VoidSymbol -> is_key_text t k.
+Proof.
+  intros H Hk. unfold RimeGetKeycodeByName in H.
+  apply keycode_by_name_in_In in H; [|assumption].
+  unfold resolved_by_keyval, resolve in H. apply in_map_iff in H. destruct H as ([kv off] & He & Hin).
+  cbn [fst snd] in He. inversion He; subst. exists off. repeat split; assumption.
+Qed.
+
+Lemma keycode_by_name_in_unknown tbl name :
+  (forall k, k <> XK_VoidSymbol -> ~ In (k, name) tbl) -> keycode_by_name_in tbl name = XK_VoidSymbol.
+Proof.
+  intro H. destruct (Z.eq_dec (keycode_by_name_in tbl name) XK_VoidSymbol) as [E|E]; [assumption|].
+  exfalso. exact (H _ E (keycode_by_name_in_In tbl name _ eq_refl E)).
+Qed.
+
+(** Theorem (5a): a successful KeyEvent::Parse names only known things *)
+Lemma parse_key_sound s k m :
+  parse_key s = (true, k, m) ->
+  (exists c, s = [c] /\ k = schar c /\ m = 0) \/
+  ((2 <= length s)%nat /\
+   let (ts, l) := split_plus s [] in
+   Forall (fun t => is_modifier_text t (RimeGetModifierByName t)) ts /\ m = mask_of ts 0 /\ is_key_text l k).
+Proof.
+  destruct s as [|a [|b r]].
+  - discriminate.
+  - cbn [parse_key]. intro H. inversion H; subst. left. now exists a.
+  - intro H. right. split; [cbn [length]; lia|].
+    rewrite parse_key_long in H by (cbn [length]; lia).
+    apply parse_from_spec in H. destruct (split_plus (a :: b :: r) []) as [ts l].
+    destruct H as (HF & Hm & H1 & H2). repeat split.
+    + eapply Forall_impl; [|exact HF]. intros t Ht. now apply modifier_by_name_sound.
+    + assumption.
+    + now apply keycode_by_name_sound.
+Qed.
+
+(** Theorem (5b): text naming an unknown modifier or an unknown key fails *)
+Lemma parse_key_unknown_fails s :
+  (2 <= length s)%nat ->
+  (let (ts, l) := split_plus s [] in
+   (exists t, In t ts /\ forall j n, nth_error modifier_name j = Some (Some n) -> cstr t <> cstr n) \/
+   (forall k off, In (k, off) keys_by_keyval -> k <> XK_VoidSymbol -> cstr_at key_names off <> cstr l)) ->
+  fst (fst (parse_key s)) = false.
+Proof.
+  intros Hlen H. destruct (parse_key s) as [[ok k] m] eqn:E. cbn [fst]. destruct ok; [|reflexivity]. exfalso.
+  rewrite parse_key_long in E by assumption. apply parse_from_spec in E.
+  destruct (split_plus s []) as [ts l]. destruct E as (HF & _ & H1 & H2).
+  destruct H as [(t & Hin & Hun)|Hun].
+  - rewrite Forall_forall in HF. apply (HF t Hin).
+    unfold RimeGetModifierByName. now apply modifier_by_name_loop_unknown.
+  - destruct (keycode_by_name_sound l k H1 H2) as (off & Hin & Hc & _). exact (Hun k off Hin H2 Hc).
+Qed.
+
+(** ** sequences *)
+
+(** one piece of key-sequence text and the event it stands for *)
+Definition piece_parses (p : bytes) (e : event) : Prop :=
+  (exists c, p = [c] /\ e = (schar c, 0)) \/
+  (exists body, p = ch_lbrace :: body ++ [ch_rbrace] /\ rbrace_free body = true /\
+                parse_key body = (true, fst e, snd e)).
+
+Lemma parse_key_single c : parse_key [c] = (true, schar c, 0).
+Proof. reflexivity. Qed.
+
+Lemma forallb_rev' {A} (f : A -> bool) l : forallb f (rev l) = forallb f l.
+Proof.
+  induction l as [|x l IH]; [reflexivity|]. cbn [rev forallb]. rewrite forallb_app, IH. cbn [forallb].
+  rewrite andb_true_r. apply andb_comm.
+Qed.
+
+Lemma parse_seq_from_sound s : forall inb out ks,
+  parse_seq_from s inb out = (true, ks) ->
+  match inb with Some acc => rbrace_free acc = true | None => True end ->
+  exists pieces ks', ks = rev out ++ ks' /\ Forall2 piece_parses pieces ks' /\
+    match inb with None => s | Some acc => ch_lbrace :: rev acc ++ s end = concat pieces.
+Proof.
+  induction s as [|c r IH]; intros inb out ks H Hinb; cbn [parse_seq_from] in H.
+  - destruct inb; [discriminate|]. inversion H; subst. exists [], []. rewrite app_nil_r. repeat split. constructor.
+  - destruct inb as [acc|].
+    + destruct (Byte.eqb c ch_rbrace) eqn:Ec.
+      * apply byte_eqb_true in Ec. subst c.
+        destruct (parse_key (rev acc)) as [[ok k] m] eqn:Ek. destruct ok; [|discriminate].
+        destruct (IH None ((k, m) :: out) ks H I) as (pieces & ks' & H1 & H2 & H3).
+        exists ((ch_lbrace :: rev acc ++ [ch_rbrace]) :: pieces), ((k, m) :: ks').
+        split; [rewrite H1; cbn [rev]; now rewrite <- app_assoc|].
+        split.
+        -- constructor; [|assumption]. right. exists (rev acc). repeat split; [|exact Ek].
+           unfold rbrace_free. now rewrite forallb_rev'.
+        -- cbn [concat]. rewrite <- H3. cbn [app]. now rewrite <- app_assoc.
+      * destruct (IH (Some (c :: acc)) out ks H) as (pieces & ks' & H1 & H2 & H3).
+        { unfold rbrace_free. cbn [forallb]. rewrite Ec. exact Hinb. }
+        exists pieces, ks'. repeat split; try assumption.
+        rewrite <- H3. cbn [rev]. now rewrite <- app_assoc.
+    + destruct (Byte.eqb c ch_lbrace && negb (match r with [] => true | _ => false end)) eqn:Eb.
+      * apply andb_true_iff in Eb. destruct Eb as [Eb _]. apply byte_eqb_true in Eb. subst c.
+        destruct (IH (Some []) out ks H eq_refl) as (pieces & ks' & H1 & H2 & H3).
+        exists pieces, ks'. repeat split; assumption.
+      * rewrite parse_key_single in H.
+        destruct (IH None ((schar c, 0) :: out) ks H I) as (pieces & ks' & H1 & H2 & H3).
+        exists ([c] :: pieces), ((schar c, 0) :: ks').
+        split; [rewrite H1; cbn [rev]; now rewrite <- app_assoc|].
+        split; [constructor; [left; now exists c|assumption]|].
+        cbn [concat app]. now rewrite H3.
+Qed.
+
+(** Theorem (5c): a successful KeySequence::Parse splits the text into single
+    characters and brace groups, each of which KeyEvent::Parse accepts *)
+Lemma parse_seq_sound s ks :
+  parse_seq s = (true, ks) ->
+  exists pieces, s = concat pieces /\ Forall2 piece_parses pieces ks.
+Proof.
+  intro H. destruct (parse_seq_from_sound s None [] ks H I) as (pieces & ks' & H1 & H2 & H3).
+  cbn [rev app] in H1. subst ks'. now exists pieces.
+Qed.
